@@ -433,3 +433,7 @@ def _only_after_close(frames, obs, exp):
 def sample_view(sc, r):
     return {"phase": sc["phase"], "generator": sc.get("gen"), "corrupted_field": sc.get("corr"), "bytes_hex": sc["hex"][:160],
             "ending": sc.get("end"), "api": sc.get("api"), "receive_options": sc.get("opts") or [], "nonblocking": sc.get("nonblocking"), "tls": sc.get("tls"), "line_tracing": sc.get("trace"), "library_trace_logging": sc.get("logtrace")}
+
+
+# round 7 summary for the evidence file
+RULE = RULE + "  Round 7: redirect Locations the standard library's URL splitter itself refuses (unbalanced / non-IP brackets, hosts that change under NFKC, ports out of range or not ASCII digits)."
